@@ -68,6 +68,46 @@ pub enum Job {
     /// six different pattern-based literal matchers (`literal_matcher_from_pattern!`) used one
     /// after the other on this thread, starting with matcher `rot`, then the first one again
     Matchers(usize),
+    /// operator application (by name, on deep expressions) with one of two different factory
+    /// types that carry the same type name (same identifier in sibling blocks of one function)
+    /// and list their operators in different order
+    SameNameFactory(usize),
+}
+
+fn same_name_factory_job(which: usize) -> Result<(f64, f64, f64), String> {
+    use exmex::{BinOp, Calculate, MakeOperators, Operator};
+    fn plus<'a>() -> Operator<'a, f64> {
+        Operator::make_bin("+", BinOp { apply: |a, b| a + b, prio: 0, is_commutative: true })
+    }
+    fn times<'a>() -> Operator<'a, f64> {
+        Operator::make_bin("*", BinOp { apply: |a, b| a * b, prio: 2, is_commutative: true })
+    }
+    fn minus<'a>() -> Operator<'a, f64> {
+        Operator::make_bin("-", BinOp { apply: |a, b| a - b, prio: 1, is_commutative: false })
+    }
+    macro_rules! with_factory {
+        ($a:expr, $b:expr, $c:expr) => {{
+            #[derive(Clone, Debug, PartialEq, Eq, PartialOrd, Ord)]
+            struct Ops;
+            impl MakeOperators<f64> for Ops {
+                fn make<'a>() -> Vec<Operator<'a, f64>> {
+                    vec![$a, $b, $c]
+                }
+            }
+            let m = |e: exmex::ExError| e.msg().to_string();
+            let x = DeepEx::<f64, Ops>::parse("x").map_err(m)?;
+            let y = DeepEx::<f64, Ops>::parse("y*1").map_err(m)?;
+            let s = x.clone().operate_binary(y.clone(), "+").map_err(m)?.eval(&[3.0, 4.0]).map_err(m)?;
+            let p = x.clone().operate_binary(y.clone(), "*").map_err(m)?.eval(&[3.0, 4.0]).map_err(m)?;
+            let d = x.operate_binary(y, "-").map_err(m)?.eval(&[3.0, 4.0]).map_err(m)?;
+            Ok((s, p, d))
+        }};
+    }
+    if which == 0 {
+        with_factory!(plus(), times(), minus())
+    } else {
+        with_factory!(minus(), plus(), times())
+    }
 }
 
 exmex::literal_matcher_from_pattern!(M0, r"^[0-9]+(\.[0-9]+)?");
@@ -302,6 +342,13 @@ pub fn run_job(job: &Job, shared: &Shared, shared_text: &'static str, sharedw: &
             }
             Ok(format!("{job:?}=ok"))
         }
+        Job::SameNameFactory(w) => {
+            let got = same_name_factory_job(*w)?;
+            if got != (7.0, 12.0, -1.0) {
+                return Err(format!("x + y, x * y, x - y at (3, 4) with the operator factory variant {w}: {got:?} instead of (7, 12, -1)"));
+            }
+            Ok(format!("{job:?}=ok"))
+        }
         Job::ParseVal64(i) => {
             let e = exmex::parse_val::<i64, f64>(VAL64_TEXTS[*i]).map_err(|e| e.msg().to_string())?;
             let v = e.eval(&[exmex::Val::Int(1)]).map_err(|e| e.msg().to_string())?;
@@ -336,6 +383,7 @@ pub fn bodies() -> Vec<Body> {
         Body { name: "B2-parse-same-and-different", shared_text: TEXTS[3], shared_deep: false, threads: vec![vec![ParseEval(0, 0, false, 0), ParseEval(4, 1, true, 1)], vec![ParseEval(4, 1, false, 2), ParseEval(4, 0, true, 3)]] },
         Body { name: "B2-parse-default-tables", shared_text: TEXTS[3], shared_deep: false, threads: vec![vec![ParseEval(2, 0, false, 0), ParseVal(0), ParseF64(0)], vec![ParseF64(1), ParseEval(2, 1, false, 1), ParseVal(1)]] },
         Body { name: "B2-value-type-two-integer-widths", shared_text: TEXTS[3], shared_deep: false, threads: vec![vec![ParseVal(2), ParseVal64(0)], vec![ParseVal64(1), ParseVal(2)]] },
+        Body { name: "B2-equally-named-operator-factories", shared_text: TEXTS[3], shared_deep: false, threads: vec![vec![SameNameFactory(0), SameNameFactory(1)], vec![SameNameFactory(1), SameNameFactory(0)]] },
         Body { name: "B2-six-literal-matchers", shared_text: TEXTS[3], shared_deep: false, threads: vec![vec![Matchers(0)], vec![Matchers(3)]] },
         Body { name: "B3-convert-clone-while-evaluating", shared_text: TEXTS[1], shared_deep: false, threads: vec![vec![CloneConvert(0)], vec![EvalShared(1), EvalShared(2)]] },
         Body { name: "B4-uncompiled-shared-evalvec-and-compiled-clones", shared_text: TEXTS[3], shared_deep: false, threads: vec![vec![EvalVecW(0), CompileCloneW(1)], vec![CompileCloneW(2), EvalVecW(3)]] },
@@ -603,7 +651,7 @@ fn fresh_process_replays(bi: usize, rep: &mut Report) {
 
 pub fn run(tier: Tier) -> i32 {
     let mut rep = Report::new("C20", tier);
-    rep.rule = "schedules: real exmex code on shuttle threads under a preemption-bounded DFS scheduler (scheduling point = every call-back into the harness data type / operator factory / literal matcher), all schedules with <= b preemptions, b iterated 0,1,2(,3); sequential histories: two operator tables over the same data type with equally many operators in different slots and a prefix-related operator pair (`*`, `**`); all call sequences up to the length bound over 19 jobs (value type over 32- and 64-bit integers; six pattern-based literal matchers in rotation) (incl. two shared expressions of 2050 / 2300 operands) in one process; observations must equal the schedule-independent reference; distinct = schedules / histories; non-trivial = schedule with at least one preemption".into();
+    rep.rule = "schedules: real exmex code on shuttle threads under a preemption-bounded DFS scheduler (scheduling point = every call-back into the harness data type / operator factory / literal matcher), all schedules with <= b preemptions, b iterated 0,1,2(,3); sequential histories: two operator tables over the same data type with equally many operators in different slots and a prefix-related operator pair (`*`, `**`); all call sequences up to the length bound over 21 jobs (two equally named operator factory types; value type over 32- and 64-bit integers; six pattern-based literal matchers in rotation) (incl. two shared expressions of 2050 / 2300 operands) in one process; observations must equal the schedule-independent reference; distinct = schedules / histories; non-trivial = schedule with at least one preemption".into();
     rep.assumptions = vec![
         "code between two call-backs runs atomically; lazy_static's Once is trusted (who initialises first is enumerated)".into(),
         "Send + Sync of FlatEx / DeepEx is asserted at compile time (harness and /verif/probe)".into(),
@@ -678,10 +726,11 @@ pub fn run(tier: Tier) -> i32 {
     fresh_process_replays(3, &mut rep);
     fresh_process_replays(2, &mut rep);
     fresh_process_replays(4, &mut rep);
+    fresh_process_replays(5, &mut rep);
     // sequential histories
     use Job::*;
-    let jobs = vec![EvalShared(0), EvalVecShared(1), ParseEval(0, 0, false, 0), ParseEval(0, 1, false, 1), ParseEval(4, 0, true, 2), ParseEval(4, 1, true, 3), ParseEval(1, 1, false, 0), ParseEval(2, 0, true, 1), CloneConvert(2), EvalVecW(0), CompileCloneW(1), ParseF64(0), ParseVal(0), ParseVal(2), ParseVal64(0), Matchers(0), Matchers(4), EvalBig(0, 0), EvalBig(1, 1)];
+    let jobs = vec![EvalShared(0), EvalVecShared(1), ParseEval(0, 0, false, 0), ParseEval(0, 1, false, 1), ParseEval(4, 0, true, 2), ParseEval(4, 1, true, 3), ParseEval(1, 1, false, 0), ParseEval(2, 0, true, 1), CloneConvert(2), EvalVecW(0), CompileCloneW(1), ParseF64(0), ParseVal(0), ParseVal(2), ParseVal64(0), Matchers(0), Matchers(4), SameNameFactory(0), SameNameFactory(1), EvalBig(0, 0), EvalBig(1, 1)];
     let m = Seq { jobs: Arc::new(jobs), max_len: if tier.thorough() { 5 } else { 4 } };
-    explore(m, &mut rep, "c20", "sequential call histories over 19 jobs (value type over 32- and 64-bit integers; six pattern-based literal matchers in rotation)");
+    explore(m, &mut rep, "c20", "sequential call histories over 21 jobs (two equally named operator factory types; value type over 32- and 64-bit integers; six pattern-based literal matchers in rotation)");
     rep.finish()
 }
